@@ -232,6 +232,10 @@ impl BitFont {
         // let flags = u32::from_le_bytes(data[12..16].try_into().unwrap());
         let length = u32::from_le_bytes(data[16..20].try_into().unwrap()) as i32;
         let charsize = u32::from_le_bytes(data[20..24].try_into().unwrap()) as i32;
+        if charsize == 0 && length != 0 {
+            // glyphs without bytes: the declared glyph count would not be bounded by the data
+            return Err(FontError::LengthMismatch(data.len(), headersize).into());
+        }
         let expected_len = (length as u32 as u64) * (charsize as u32 as u64) + headersize as u64;
         if expected_len != data.len() as u64 {
             return Err(FontError::LengthMismatch(data.len(), expected_len as usize).into());
